@@ -220,9 +220,13 @@ class Interp:
             body = s.child('body')
             at_least_once = False
             inc = _strip_casts(s.child('inc')) if k == 'ForStmt' and s.child('inc') is not None else None
-            chunked_for = inc is not None and inc.k == 'CompoundAssignOperator' and inc.op == '+=' and (_strip_casts(inc.child('rhs')).cv or 0) > 1
+            unit_step = inc is not None and ((inc.k == 'UnaryOperator' and inc.op in ('++', '--', 'post++', 'post--')) or
+                                             (inc.k == 'CompoundAssignOperator' and inc.op in ('+=', '-=') and (_strip_casts(inc.child('rhs')).cv or 0) == 1) or
+                                             (inc.k == 'BinaryOperator' and inc.op == ','))
+            chunked_for = k == 'ForStmt' and not unit_step
             if k == 'WhileStmt' or chunked_for:
-                # chunk loops `i0 = 0; while (i0 < total)` / `for (i0 = 0; i0 < total; i0 += CHUNK)`: total >= 1 (stated assumption)
+                # chunk loops, in any form that does not step by one element (`while (i0 < total) {..; i0 = i1;}`, `for (i0 = 0; i0 < total;
+                # i0 += CHUNK)`, `for (...; i0 = i1)`): total >= 1 (stated assumption)
                 c = _strip_casts(s.child('cond'))
                 if c.k == 'BinaryOperator' and c.op == '<' and self.val(c.child('lhs')) == 0:
                     at_least_once = True
@@ -267,8 +271,11 @@ class Interp:
     def note_even(self, s):
         # `if (len % 2) len++;`
         c = _strip_casts(s.child('cond'))
-        if c.k == 'BinaryOperator' and c.op == '%' and c.child('rhs').cv == 2 and s.child('else') is None:
-            key = lvalue_key(c.child('lhs'))
+        # the oddness test in any spelling: `len % 2`, `len % 2 == 1`, `len % 2 != 0`, `len & 1`, `(len & 1) != 0`
+        if c.k == 'BinaryOperator' and c.op in ('==', '!=') and _strip_casts(c.child('rhs')).cv in (0, 1) and ((c.op == '==') == (_strip_casts(c.child('rhs')).cv == 1)):
+            c = _strip_casts(c.child('lhs'))
+        if c.k == 'BinaryOperator' and ((c.op == '%' and _strip_casts(c.child('rhs')).cv == 2) or (c.op == '&' and _strip_casts(c.child('rhs')).cv == 1)) and s.child('else') is None:
+            key = lvalue_key(_strip_casts(c.child('lhs')))
 
             def flips(t):
                 # every path through t changes the variable by exactly one (so odd becomes even)
